@@ -25,6 +25,7 @@ type Family struct {
 	// list (each choice rotated by one: none -> first version -> ... -> last version -> none)
 	// written before dawn.toml, plus two ordinary files after it.
 	Stale bool
+	Spell string // Universe.ReqSpelling of the generated universes
 
 	nodes [][2]int // (project, version index)
 	radix []int    // one digit per (node, other project)
@@ -82,7 +83,7 @@ func (f *Family) Universe(idx int64) *Universe {
 		digits[i] = int(idx % int64(f.radix[i]))
 		idx /= int64(f.radix[i])
 	}
-	u := &Universe{ReverseDecl: f.Reverse, ExtraFiles: f.Stale}
+	u := &Universe{ReverseDecl: f.Reverse, ExtraFiles: f.Stale, ReqSpelling: f.Spell}
 	repoIdx := map[string]int{}
 	repoFor := func(dir string) (*RepoSpec, string) {
 		addr, d := f.Addr, dir
